@@ -127,8 +127,49 @@ def install():
     m(PDA, "__and__", PROP, pre_pda, post_pda)
 
 
+def trie_case(rng, kind="dfa"):
+    """the trie of a few short words (ten or more states, accepting leaves without outgoing transitions), padded with
+    an unreachable component; as a DFA, or as an NFA with a second start state inside the padding"""
+    words = [[0, 1], [0, 0, 1, 1], [1, 0], [0, 1, 0, 1], [1, 1], [0, 0, 1]]
+    rng.shuffle(words)
+    words = words[:rng.randint(4, 6)]
+    trans, finals, nxt = [], [], 1
+    index = {(): 0}
+    for w in words:
+        for i in range(1, len(w) + 1):
+            pre = tuple(w[:i])
+            if pre not in index:
+                index[pre] = nxt
+                trans.append([index[tuple(w[:i - 1])], w[i - 1], nxt])
+                nxt += 1
+        finals.append(index[tuple(w)])
+    pad0 = nxt
+    for j in range(3):
+        trans.append([pad0 + j, j % 2, pad0 + (j + 1) % 3])        # unreachable padding
+    starts = [0]
+    if kind != "dfa":
+        starts.append(pad0)                                            # a second start state (its component accepts b a)
+        trans.append([pad0, 1, pad0 + 1])
+        finals.append(pad0 + 2)
+    return {"kind": kind, "n": pad0 + 3, "k": 2, "start": starts, "final": sorted(set(finals)), "trans": trans,
+            "extra": [], "vc": rng.choice(["int", "str"]), "token": True}
+
+
 def plan(tier, rng, sl, nslices, stats):
     cfg = TIERS[tier]
+    for i in range(24):
+        # scale cases: automata with ten or more states against the grammar / PDA of a^n b^n and random ones
+        anbn_g = {"nv": 1, "nt": 2, "start": 0, "prods": [[0, [["T", 0], ["V", 0], ["T", 1]]], [0, [["T", 0], ["T", 1]]]],
+                  "vc": "str"}
+        anbn_p = {"n": 2, "m": 2, "k": 2, "trans": [[0, 0, 0, 0, [1, 0]], [0, 0, 1, 0, [1, 1]], [0, 1, 1, 1, []],
+                                                    [1, 1, 1, 1, []], [1, -1, 0, 1, []]],
+                  "start": 0, "zstart": 0, "finals": [1], "vc": "str"}
+        kind = ["dfa", "nfa", "enfa"][i % 3]
+        left = ({"kind": "cfg", "g": anbn_g if i % 4 < 2 else gcfg.random_case(rng, max_vars=3, max_terms=2, max_prods=5,
+                                                                               max_body=3, vcs=["str"])}
+                if i % 2 == 0 else
+                {"kind": "pda", "p": anbn_p if i % 4 == 1 else gpda.random_case(rng, max_push=2, vcs=["str"])})
+        yield {"left": left, "right": {"kind": "fa", "fa": trie_case(rng, kind)}, "twice": False}
     for i in range(cfg["random"]):
         left = ({"kind": "cfg", "g": gcfg.random_case(rng, max_vars=3, max_terms=2, max_prods=5, max_body=3,
                                                        vcs=["str", "int", "lower"])}
